@@ -76,7 +76,16 @@ def fbits(h):
 _STR = {}          # strings interned as definitions of the generated header (a string literal is costly to elaborate)
 
 
+def unwritable(c):
+    return c in "\x00\x02" or 0xD800 <= ord(c) <= 0xDFFF
+
+
 def lit(s):
+    """Coq string literal (bytes are taken raw; control characters, CR, U+2028 etc. included).  NUL and lone surrogates cannot
+    be written into the UTF-8 source file: such a string is renamed injectively (strings are opaque to the model: only
+    equality and the order of the keys, which is fixed on the Python side, matter; no generated string starts with the marker)"""
+    if any(unwritable(c) for c in s):
+        s = "\x02esc:" + "".join("\x02%04x;" % ord(c) if unwritable(c) else c for c in s)
     return '"%s"' % s.replace('"', '""')
 
 
@@ -297,6 +306,17 @@ IDS = [0, 1, 2, 3, 4, 5, 6, 7, 8, 9, 10, 11, 12, -1, -7, 2 ** 31, 2 ** 40 + 3, 2
 STRINGS = ["", "a", "x_1", "F", 'say "hi"', "back\\slash", "tab\there", "two\nlines", "café", "λ→∞", "\U0001f600",
            "0", "null", "(* not a comment *)", "a'b", "   ", "%Z"]
 KEYS = ["k", "functions", "a b", "nested", 'q"uote', "ü", "id", "features", "0", "", "Key", "key"]
+# red-team round 2: strings that are JSON tokens, look like numbers, or need escaping in JSON / SQL (a store that post-processes
+# the JSON TEXT, e.g. .replace('Infinity', '1e999'), corrupts string values the number-only generators never contained)
+TOKENS = ["Infinity", "-Infinity", "NaN", "true", "false", "1e999", "-1e999", "0x10", "1.5", "-0", "1e5", "inf", "nan", "Infinity, NaN",
+          "xInfinityx", "infinity", "Infinit", "[Infinity]", '{"a": Infinity}', '", "costs": [Infinity], "x": "', "\\u0041", "\\",
+          '\\"', '"', '""', "\\n", "/", "\\/", "'; DROP TABLE individuals; --", "?1", ":id", "None", "1e999Infinity-Infinity"]
+LONG = "x" * 1200 + "Infinity" + "\\" * 3 + '"' + "NaN" + "y" * 1200 + "é\u2028"
+# only where the value travels inside JSON text (custom data, feature keys, values of parameter / cost descriptions), not as an SQL text column
+JSON_ONLY = ["\x00", "a\x00b", "\x01\x1f", "\x7f", "\r\n", "\u2028\u2029", "\ud83d", "\udc00x", "\uffff", "\ufeff", "e\u0301", "\x08\x0c", LONG]
+STRINGS += TOKENS
+JSTRINGS = STRINGS + JSON_ONLY
+JKEYS = KEYS + ["Infinity", "-Infinity", "NaN", "null", "true", "1e999", "\\", "a\x00b", "\ud83d", "\r\n", '"', "Infinity\x7f"]
 
 
 def rfloat(rng):
@@ -336,7 +356,9 @@ def rvec(rng, n, p_inf=0.1):
     return items
 
 
-def rjson(rng, depth=0):
+def rjson(rng, depth=0, strings=False):
+    if strings:
+        return rjson_strings(rng, depth)
     r = rng.random()
     if depth >= 1 and r < 0.06:         # numpy values the repaired store turns into plain JSON
         return rng.choice([{"ni": rng.choice([0, 18, -5, 2 ** 62])}, {"nb": rng.random() < 0.5},
@@ -353,13 +375,28 @@ def rjson(rng, depth=0):
         if k == 4:
             return None
         if k == 5:
-            return rng.choice(STRINGS)
+            return rng.choice(JSTRINGS)
         return rfinite(rng)
     if r < 0.6:
         items = [rjson(rng, depth + 1) for _ in range(rng.randint(0, 4))]
         return {"t": items} if rng.random() < 0.15 else items
     keys = rng.sample(KEYS, rng.randint(0, 4))
     return {"d": [[k, rjson(rng, depth + 1)] for k in keys]}
+
+
+def rjson_strings(rng, depth=0):
+    """custom data dominated by special strings, next to the float tokens they imitate (inf, -inf as real numbers)"""
+    r = rng.random()
+    if depth >= 3 or r < 0.5:
+        k = rng.randrange(10)
+        if k == 0:
+            return rng.choice([{"f": "inf"}, {"f": "-inf"}, {"nf": "inf"}, None, True, False, 0, rfinite(rng)])
+        return rng.choice(TOKENS + JSON_ONLY) if k < 8 else rng.choice(STRINGS)
+    if r < 0.75:
+        items = [rjson_strings(rng, depth + 1) for _ in range(rng.randint(0, 4))]
+        return {"t": items} if rng.random() < 0.15 else items
+    keys = rng.sample(JKEYS, rng.randint(1, 4))
+    return {"d": [[k, rjson_strings(rng, depth + 1)] for k in keys]}
 
 
 def rref(rng, ids):
@@ -386,7 +423,7 @@ def rfeature_value(rng, ids, depth=0):
     return None
 
 
-def rfeatures(rng, ids, m):
+def rfeatures(rng, ids, m, strings=False):
     f = [["start_time", rfinite(rng)], ["finish_time", rfinite(rng)],
          ["feasible", rng.choice([{"f": (0.0).hex()}, True, False, {"f": (1.5).hex()}])], ["precision", rng.choice([7, 7, 3, 12])]]
     r = rng.random()
@@ -401,8 +438,8 @@ def rfeatures(rng, ids, m):
         f.append(["best_vector", rvec(rng, rng.randint(1, 3), 0.0)])
     if rng.random() < 0.2:
         f.append(["gradient", {"a": [rfinite(rng).popitem()[1] for _ in range(rng.randint(1, 3))]}])
-    for _ in range(rng.choice([0, 0, 1, 2])):
-        k = rng.choice(KEYS + ["sensitivity", "extra"])
+    for _ in range(rng.choice([1, 2, 3] if strings else [0, 0, 1, 2])):
+        k = rng.choice(JKEYS if strings else JKEYS + ["sensitivity", "extra"])
         if k not in [x[0] for x in f]:
             f.append([k, rfeature_value(rng, ids)])
     if rng.random() < 0.15:
@@ -412,7 +449,7 @@ def rfeatures(rng, ids, m):
     return f
 
 
-def rind(rng, iid, ids, dim, m):
+def rind(rng, iid, ids, dim, m, strings=False):
     costs = rvec(rng, m, 0.05) if rng.random() < 0.9 else []
     if costs and rng.random() < 0.12:   # an objective that returns ints: calc_signed_costs makes numpy.int64 of them
         costs = [rng.choice([0, 5, 18, -3, 10 ** 6]) for _ in range(m)]
@@ -423,16 +460,17 @@ def rind(rng, iid, ids, dim, m):
         cs = []
     if rng.random() < 0.1:
         cs = [rfloat(rng) for _ in range(rng.randint(0, 3))]
-    custom = rjson(rng, 1) if rng.random() < 0.15 else {"d": [[k, rjson(rng, 1)] for k in rng.sample(KEYS, rng.choice([0, 0, 1, 1, 2, 3]))]}
+    custom = (rjson(rng, 1, strings) if rng.random() < 0.15 else
+              {"d": [[k, rjson(rng, 1, strings)] for k in rng.sample(JKEYS if strings else KEYS, rng.choice([1, 2, 3] if strings else [0, 0, 1, 1, 2, 3]))]})
     return {"id": iid, "vector": rvec(rng, dim), "costs": costs, "costs_signed": cs,
             "state": rng.choice(["evaluated"] * 6 + STATES), "population_id": rng.choice([-1, 0, 1, 2, 3, 10]),
-            "algorithm_id": rng.choice([0, "%032x" % rng.getrandbits(128), "a"]), "custom": custom,
-            "features": rfeatures(rng, ids, m),
+            "algorithm_id": rng.choice([0, "%032x" % rng.getrandbits(128), "a"] + (TOKENS[:6] if strings else [])), "custom": custom,
+            "features": rfeatures(rng, ids, m, strings),
             "parents": [rfeature_value(rng, ids, 1) if rng.random() < 0.3 else rref(rng, ids) for _ in range(rng.choice([0, 0, 0, 1, 2]))],
             "children": [rfeature_value(rng, ids, 1) if rng.random() < 0.3 else rref(rng, ids) for _ in range(rng.choice([0, 0, 0, 1, 3]))]}
 
 
-def rmeta(rng, degenerate=False):
+def rmeta(rng, degenerate=False, strings=False):
     dim = rng.choice([1, 2, 2, 3, 5])
     m = rng.choice([1, 1, 2, 3])
     params = []
@@ -446,6 +484,8 @@ def rmeta(rng, degenerate=False):
             p.append(["parameter_type", rng.choice(["real", "integer", "boolean"])])
         if rng.random() < 0.2:
             p.append(["precision", {"f": rng.choice([1e-3, 1e-6]).hex()}])
+        if rng.random() < (0.5 if strings else 0.1):
+            p.append([rng.choice(["unit", "note", "Infinity"]), rng.choice(JSTRINGS)])
         if rng.random() < 0.3:
             rng.shuffle(p)
         params.append({"d": p})
@@ -456,6 +496,8 @@ def rmeta(rng, degenerate=False):
             c.append(["criteria", rng.choice(["minimize", "maximize"])])
         if rng.random() < 0.2:
             c.append(["weight", rfinite(rng)])
+        if rng.random() < (0.5 if strings else 0.1):
+            c.append([rng.choice(["unit", "NaN"]), rng.choice(JSTRINGS)])
         costs.append({"d": c})
     if degenerate:
         tgt = params if rng.random() < 0.5 and params else costs
@@ -465,17 +507,17 @@ def rmeta(rng, degenerate=False):
         else:
             k = rng.randrange(len(tgt))
             tgt[k] = {"d": [kv for kv in tgt[k]["d"] if kv[0] != "name"] + [["Name", "x"]]}   # no 'name' -> KeyError
-    return dim, m, {"name": rng.choice(["p", "NLopt_BOBYQA", "", 'a "b"', "café"]),
-                    "description": rng.choice(["", "", "two\nlines", "d"]), "params": params, "costs": costs}
+    return dim, m, {"name": rng.choice(["p", "NLopt_BOBYQA", "", 'a "b"', "café"] + (TOKENS[:4] if strings else [])),
+                    "description": rng.choice(["", "", "two\nlines", "d"] + (TOKENS if strings else [])), "params": params, "costs": costs}
 
 
-def gen_history(rng, degenerate=False):
-    dim, m, case = rmeta(rng, degenerate)
+def gen_history(rng, degenerate=False, strings=False):
+    dim, m, case = rmeta(rng, degenerate, strings)
     ids = rng.sample(IDS[:13], rng.randint(1, 5)) + (rng.sample(IDS[13:], rng.randint(0, 2)) if rng.random() < 0.3 else [])
     pool = {}
 
     def draw(i, slot=True):
-        d = rind(rng, i, ids, dim, m)
+        d = rind(rng, i, ids, dim, m, strings)
         if slot:
             d["slot"] = i
         if i in pool and rng.random() < 0.4:    # the same design again with other data (as NSGA-II writes an individual twice)
@@ -775,7 +817,7 @@ def run(ctx):
             "resynchronised_ids": 0, "rows": 0, "float_tokens": 0, "inf_tokens": 0, "numpy_scalars": 0, "individual_refs": 0,
             "thread_safe": 0, "single_connection": 0, "rewrite": 0, "reopened_in_write_mode": 0, "sync_all_with_reloaded": 0,
             "long_lived_objects": 0, "shared_vectors": 0, "interleaved_pairs": 0, "longest_history": 0,
-            "runs": {}, "run_rows": 0, "run_recorded": 0}
+            "runs": {}, "run_rows": 0, "run_recorded": 0, "strings_with_json_tokens": 0, "special_string_histories": 0}
 
     def census(d):
         s = json.dumps(d)
@@ -783,6 +825,7 @@ def run(ctx):
         hist["inf_tokens"] += s.count('inf"')
         hist["numpy_scalars"] += s.count('"nf":') + s.count('"a":')
         hist["individual_refs"] += s.count('"ind":')
+        hist["strings_with_json_tokens"] += sum(s.count(t) for t in ("Infinity", "NaN", "1e999", '\\"', "\\u0000", "\\ud83d"))
 
     def note_mismatch(what, case, **kw):
         if sum(1 for m in ctx.mismatches if m.get("correspondence") == "purity") < 10:
@@ -1196,6 +1239,13 @@ def run(ctx):
         if saturated():
             break
         history_case(gen_history(rng), k)
+        k += 1
+    # custom data / feature keys / description values dominated by strings that are JSON tokens or need escaping
+    for _ in range(ctx.pick(50, 400)):
+        if saturated():
+            break
+        history_case(gen_history(rng, strings=True), k)
+        hist["special_string_histories"] += 1
         k += 1
     for _ in range(ctx.pick(20, 80)):
         if saturated():
